@@ -24,6 +24,7 @@
 #include "cppFunctionType.h"
 #include "cppArrayType.h"
 #include "cppPointerType.h"
+#include "cppTypedefType.h"
 
 using std::ostream;
 using std::string;
@@ -269,7 +270,13 @@ void InterfaceMakerPythonSimple::write_function_instance(ostream &out, Interface
     // This is the string to convert our local variable to the appropriate C++
     // type.  Normally this is just a cast.
     CPPType *cast_type = type;
-    if (CPPArrayType *array_type = type->as_array_type()) {
+    while (cast_type->get_subtype() == CPPDeclaration::ST_typedef) {
+      cast_type = cast_type->as_typedef_type()->_type;
+    }
+    if (cast_type->as_array_type() == nullptr) {
+      cast_type = type;
+    }
+    if (CPPArrayType *array_type = cast_type->as_array_type()) {
       // It's not possible to cast to an array type; cast to a pointer to its
       // elements instead.
       cast_type = CPPType::new_type(new CPPPointerType(array_type->_element_type));
